@@ -570,6 +570,55 @@ func fullRangeNeverRefused(p *core.Prog, r *core.Report, h *core.RuleH) {
 		r.Fatalf("C11.R8: IsFull never answers true")
 		return
 	}
+	// and IsFull answers true only for a range that starts at position zero: every value it returns other than
+	// the constant false is the test 'First == 0' itself or is computed behind its true edge
+	firstIsZero := func(v ssa.Value) bool {
+		bo, ok := v.(*ssa.BinOp)
+		if !ok || bo.Op != token.EQL || fieldOf(bo.X) != "First" {
+			return false
+		}
+		k, isK := intConstOf(bo.Y)
+		return isK && k == 0
+	}
+	behindFirstZero := func(b *ssa.BasicBlock) bool {
+		for _, blk := range isFull.Blocks {
+			for _, in := range blk.Instrs {
+				if bo, ok := in.(*ssa.BinOp); ok && firstIsZero(bo) && branchDominates(bo, true, b) {
+					return true
+				}
+			}
+		}
+		return false
+	}
+	for _, b := range isFull.Blocks {
+		ret, ok := b.Instrs[len(b.Instrs)-1].(*ssa.Return)
+		if !ok || len(ret.Results) != 1 {
+			continue
+		}
+		var contrib []ssa.Value
+		var blocks []*ssa.BasicBlock
+		if phi, isPhi := ret.Results[0].(*ssa.Phi); isPhi {
+			for i, e := range phi.Edges {
+				contrib = append(contrib, e)
+				blocks = append(blocks, phi.Block().Preds[i])
+			}
+		} else {
+			contrib, blocks = []ssa.Value{ret.Results[0]}, []*ssa.BasicBlock{b}
+		}
+		for i, v := range contrib {
+			if c, isC := v.(*ssa.Const); isC {
+				if bv, isB := constBool(c); isB && !bv {
+					continue
+				}
+			}
+			okv := firstIsZero(v) || behindFirstZero(blocks[i])
+			if in, isIn := v.(ssa.Instruction); isIn && !okv {
+				okv = behindFirstZero(in.Block())
+			}
+			h.Check(okv, core.FuncName(isFull)+"#true-only-from-position-zero@"+fmt.Sprint(i), p.InstrPos(ret), "'the whole payload' requires first position zero",
+				"IsFull can answer true for a range that does not start at position zero: the plain-read shortcut then serves the whole object where the resolving readers answer out-of-range")
+		}
+	}
 	nonZero := []core.Guard{
 		{Name: "first-nonzero(ne-form)", Comps: []core.Comp{{Result: -1, Kind: core.IsTrue}}, Value: func(_ *ssa.Function, v ssa.Value) bool {
 			bo, ok := v.(*ssa.BinOp)
